@@ -566,6 +566,9 @@ def r2_protocol(res, facts):
         if not tries:
             r.violation(q, 'no try block', common.file_line(a)); continue
         t = max(tries, key=lambda t: len(t['h']))
+        # the status variable: the local the function returns (whatever it is called)
+        status_ids = {strip_casts(x['e']).get('id') for x in walk(a['body']) if x['k'] == 'Return' and x.get('e') is not None and
+                      (strip_casts(x['e']) or {}).get('k') == 'Ref' and (strip_casts(x['e']) or {}).get('d') == 'local'}
         types = [short(h['ty']).replace('xercesc_3_2::', '') for h in t['h']]
         lists[q] = types
         # shadowing
@@ -580,7 +583,7 @@ def r2_protocol(res, facts):
             # status
             consts = []
             for x in walk(h['body']):
-                if x['k'] == 'Bin' and x['op'] == '=' and strip_casts(x['lhs']).get('n') == 'theResult':
+                if x['k'] == 'Bin' and x['op'] == '=' and strip_casts(x['lhs']).get('k') == 'Ref' and strip_casts(x['lhs']).get('id') in status_ids:
                     rv = strip_casts(x['rhs'])
                     consts.append(rv.get('cv'))
                 if x['k'] == 'Return' and x.get('e') is not None and 'cv' in (strip_casts(x['e']) or {}):
@@ -681,18 +684,17 @@ def run(res, facts, tier):
 
 
 # ----------------------------------------------------------------------------------------------- R8: integer division by a run-time divisor
-# divisors that are non-zero by an invariant established elsewhere, one reason each (function, divisor text)
+# divisors that are non-zero by an invariant established elsewhere, one reason each (function, divisor with locals replaced by their initialisers and parameters by $position)
 DIVISOR_INVARIANTS = {
     ('XalanDeque::operator[]', 'm_blockSize'): 'block size is fixed by the constructor (callers pass a non-zero literal; default 10) and never written afterwards',
     ('XalanDeque::XalanDeque', 'theRHS.m_blockSize'): 'copy of an existing deque: same invariant as m_blockSize',
-    ('XalanMap::doHash', 'modulus'): 'callers pass m_buckets.size() after the map has created its buckets (doCreateEntry / find return early on an empty bucket vector)',
+    ('XalanMap::doHash', '$1'): 'callers pass m_buckets.size() after the map has created its buckets (doCreateEntry / find return early on an empty bucket vector)',
     ('XalanDOMStringHashTable::find', 'm_bucketCount'): 'bucket count is a constructor argument (eDefaultBucketCount = 101 or an explicit non-zero count)',
     ('XalanDOMStringHashTable::insert', 'm_bucketCount'): 'bucket count is a constructor argument (eDefaultBucketCount = 101 or an explicit non-zero count)',
     ('XalanQName::hash', '(getNamespace().hash() + 1)'): 'hash value plus one',
-    ('ElemNumber::traditionalAlphaCount', 'multiplier[i]'): 'entries of the numbering resource bundle (powers of ten), never zero',
-    ('ElemNumber::traditionalAlphaCount', 'groups[k]'): 'entries of the numbering resource bundle (group sizes), never zero',
-    ('ElemNumber::traditionalAlphaCount', 'groups[count]'): 'entries of the numbering resource bundle (group sizes), never zero',
-    ('ElemNumber::int2alphaCount', 'radix'): 'length of the alphabet table passed by the caller (s_alphaCountTableSize / resource bundle), non-zero',
+    ('ElemNumber::traditionalAlphaCount', '<$1.getMultipliers()>[<0>]'): 'entries of the numbering resource bundle (powers of ten), never zero',
+    ('ElemNumber::traditionalAlphaCount', '<$1.getNumberGroups()>[<0>]'): 'entries of the numbering resource bundle (group sizes), never zero',
+    ('ElemNumber::int2alphaCount', '<$2>'): 'length of the alphabet table passed by the caller (s_alphaCountTableSize / resource bundle), non-zero',
 }
 
 
@@ -744,8 +746,8 @@ def r8_division(res, facts):
                             guarded = True
             if guarded:
                 r.ok(site, 'dominated by a non-zero test')
-            elif key in DIVISOR_INVARIANTS and not isfx:
-                r.ok(site, 'invariant: ' + DIVISOR_INVARIANTS[key])
+            elif (fn, common.canon_text(x['rhs'], a)) in DIVISOR_INVARIANTS and not isfx:
+                r.ok(site, 'invariant: ' + DIVISOR_INVARIANTS[(fn, common.canon_text(x['rhs'], a))])
             elif isfx:
                 fired.add(a['name'])
             else:
@@ -1097,12 +1099,13 @@ def run(res, facts, tier):
 
 
 # ----------------------------------------------------------------------------------------------- R10: indexed stores into fixed-size local arrays
+# keyed by (function, ordinal of the local array among the function's fixed-size arrays)
 ARRAY_STORE_REVIEWED = {
-    ('DOMStringHelper::NumberToCharacters', 'theBuffer'): 'the index walks back from the length sprintf returned into the same buffer (bounded by C03-R3) towards 0',
-    ('NumberToDOMString', 'theBuffer'): 'the index walks back from the length sprintf returned into the same buffer (bounded by C03-R3) towards 0',
-    ('ElemNumber::traditionalAlphaCount', 'buf'): 'at most two code units per multiplier and one per group of the numbering resource bundle; the only bundle (Greek, static data in ElemNumber.cpp) '
+    ('DOMStringHelper::NumberToCharacters', 0): 'the index walks back from the length sprintf returned into the same buffer (bounded by C03-R3) towards 0',
+    ('NumberToDOMString', 0): 'the index walks back from the length sprintf returned into the same buffer (bounded by C03-R3) towards 0',
+    ('ElemNumber::traditionalAlphaCount', 0): 'at most two code units per multiplier and one per group of the numbering resource bundle; the only bundle (Greek, static data in ElemNumber.cpp) '
                                                    'has 4 multipliers and 3 groups, the buffer 100 units',
-    ('ElemNumber::int2alphaCount', 'buf'): 'one code unit per digit of a CountType in a radix >= 2 alphabet: at most 64 < 100, filled from the end',
+    ('ElemNumber::int2alphaCount', 0): 'one code unit per digit of a CountType in a radix >= 2 alphabet: at most 64 < 100, filled from the end',
 }
 
 
@@ -1159,7 +1162,7 @@ def r10_array_stores(res, facts):
                 for v in x.get('vars', []):
                     m = re.search(r'\[(\d+)\]$', (v.get('ty') or '').strip())
                     if m:
-                        arrays[v['id']] = (v['n'], int(m.group(1)))
+                        arrays[v['id']] = (v['n'], int(m.group(1)), len(arrays))
         if not arrays:
             continue
         fname = strip_targs_local(short(facts.name[k]))
@@ -1177,7 +1180,7 @@ def r10_array_stores(res, facts):
             b = strip_casts(t['b'])
             if not (isinstance(b, dict) and b.get('k') == 'Ref' and b.get('id') in arrays):
                 continue
-            nm, size = arrays[b['id']]
+            nm, size, ordinal = arrays[b['id']]
             idx = strip_casts(t['i'])
             post = None
             if isinstance(idx, dict) and idx.get('k') == 'Un' and idx.get('op') in ('++', '--') and idx.get('post'):
@@ -1193,8 +1196,8 @@ def r10_array_stores(res, facts):
             if ub is not None and ub < size:
                 if not isfx:
                     r.ok(site, 'index <= %d < %d' % (ub, size))
-            elif (fname, nm) in ARRAY_STORE_REVIEWED and not isfx:
-                r.ok(site, ARRAY_STORE_REVIEWED[(fname, nm)])
+            elif (fname, ordinal) in ARRAY_STORE_REVIEWED and not isfx:
+                r.ok(site, ARRAY_STORE_REVIEWED[(fname, ordinal)])
             else:
                 if isfx:
                     fired.add(fname)
